@@ -191,6 +191,50 @@ func (b *Built) Finalize() {
 	b.applyProps()
 }
 
+// FinalizeFromCallbacks does what Finalize does, but from inside the render: the application registers a
+// table-level, cell-targeted pre-cell render callback, which brings the item of the cell it is handed to its final
+// state and asks that cell to Update - the documented way of refreshing a cell, done at the documented time for
+// preparing a render (pre-cell callbacks run before the render callbacks that measure a cell).  The
+// next render therefore has to show the final texts.  Idempotent: every later pass finds nothing left to do.
+func (b *Built) FinalizeFromCallbacks() {
+	doneH := make([]bool, len(b.Header))
+	doneC := make([][]bool, len(b.Cells))
+	for i := range b.Cells {
+		doneC[i] = make([]bool, len(b.Cells[i]))
+	}
+	cb := refresher(func(o tabular.PropertyOwner) error {
+		cell, ok := o.(*tabular.Cell)
+		if !ok {
+			return nil
+		}
+		loc := cell.Location()
+		var m *Made
+		var done *bool
+		switch {
+		case loc.Row == 0 && loc.Column >= 1 && loc.Column <= len(b.Header):
+			m, done = &b.Header[loc.Column-1], &doneH[loc.Column-1]
+		case loc.Row >= 1 && loc.Row <= len(b.Cells) && loc.Column >= 1 && loc.Column <= len(b.Cells[loc.Row-1]):
+			m, done = &b.Cells[loc.Row-1][loc.Column-1], &doneC[loc.Row-1][loc.Column-1]
+		default:
+			return nil
+		}
+		if *done || !m.NeedsFinalize() {
+			return nil
+		}
+		*done = true
+		m.Mutate(*m.Spec().F)
+		cell.Update()
+		return nil
+	})
+	b.T.RegisterPropertyCallback(b.T, tabular.CB_AT_RENDER_PRECELL, tabular.CB_ON_CELL, cb)
+	b.Rows = b.T.AllRows()
+	b.applyProps()
+}
+
+type refresher func(tabular.PropertyOwner) error
+
+func (f refresher) UpdateProperties(o tabular.PropertyOwner) error { return f(o) }
+
 // BuildStaged replays the construction history; after `at` row operations
 // (0..len(Rows); negative = never) it calls mid, typically a first render of the
 // partial table through a wrapper that is used again later.  Items are left in their
